@@ -301,4 +301,39 @@ func runC25(c *eng.Ctx) {
 
 	errAll(c, "ERR-write-paths", "weed/server", "an error of a callee on the HTTP write path reaches the caller", "(*FilerServer).doPostAutoChunk", "(*FilerServer).doPutAutoChunk", "(*FilerServer).dataToChunk")
 	c.Expect("ERR-write-paths", 5)
+
+	// the entry committed for the request carries the chunks uploaded for it: before the entry is handed to the
+	// filer its chunk list is set to a value built from the uploaded chunks (after the optional manifest step), and
+	// a failed commit hands exactly those uploaded chunks to deletion
+	if fn := c.NeedFunc("weed/server", "(*FilerServer).saveMetaData"); fn != nil {
+		create := eng.Find(fn, eng.PlainCallTo("filer.Filer).CreateEntry"))
+		fromUpload := func(v ssa.Value) bool { return eng.IsParamLike(v, "fileChunks") }
+		var sets []ssa.Instruction
+		for _, in := range eng.Find(fn, eng.StoreToField("Entry.Chunks")) {
+			if eng.Mentions(in.(*ssa.Store).Val, 10, fromUpload) {
+				sets = append(sets, in)
+			}
+		}
+		if len(create) != 1 {
+			c.Undecided("GUARD-commit", eng.FuncName(fn)+" chunks", fn.Pos(), "commit call not found")
+		} else {
+			c.Before("GUARD-commit", "entry-carries-uploaded-chunks", fn, eng.AnyOf(sets), create, "the committed entry's chunk list is built from the chunks uploaded for this request")
+			e := eng.ErrOf(create[0])
+			okDel := false
+			for _, in := range eng.Find(fn, eng.PlainCallTo("filer.Filer).DeleteChunks")) {
+				if fromUpload(eng.Arg(in.(*ssa.Call), 0)) {
+					okDel = true
+					for _, st := range startsOf(eng.PassEdges(fn, eng.ErrNotNil(e))) {
+						if hit, _ := eng.Search(st, eng.IsReturn, eng.SearchOpt{Barrier: eng.Is(in)}); hit != nil {
+							okDel = false
+						}
+					}
+					if hit, _ := eng.Search(eng.Entry(fn), eng.Is(in), eng.SearchOpt{Cut: eng.PassEdges(fn, eng.ErrNotNil(e))}); hit != nil {
+						okDel = false // reachable although the commit succeeded
+					}
+				}
+			}
+			c.Ob("GUARD-commit", eng.FuncName(fn)+" failed-commit-deletes-uploaded-chunks", okDel, create[0].Pos(), "when the commit fails (and only then) the chunks uploaded for the request are handed to deletion")
+		}
+	}
 }
